@@ -16,6 +16,8 @@ package publicsuffix
 //   VerifC51_rules   (B) templates from the rule list itself: every exception rule, every 4th wildcard rule and every 64th
 //                    other rule R (thorough: every wildcard rule, every 16th other rule): the domains R, x.R and y.x.R with
 //                    symbolic labels x (3 or 4 bytes; thorough also 1) and y (2 bytes). This reaches long labels, deep rules, wildcards below and above, and exceptions.
+//   VerifC51_tlds    (B) every top-level label t of the rule list in both tiers (the complete top-level search range,
+//                    first and last node included): the domains t and x.t with x = 2 symbolic bytes (thorough 1..3).
 //   VerifC51_sorted  concrete pass: every child range of the packed table is strictly increasing (precondition of find).
 //
 // Sensitivity (mut.sh):
@@ -34,6 +36,7 @@ func init() {
 	vfRegister("VerifC51_lookup", VerifC51_lookup)
 	vfRegister("VerifC51_rules", VerifC51_rules)
 	vfRegister("VerifC51_sorted", VerifC51_sorted)
+	vfRegister("VerifC51_tlds", VerifC51_tlds)
 }
 
 type c51rule struct {
@@ -307,6 +310,28 @@ func VerifC51_lookup() {
 		labels[i] = c51label("label", vfLen("len", 1, 3), i == 0)
 	}
 	labels = append(labels, tld)
+	c51check(labels)
+	vfReach("end")
+}
+
+// VerifC51_tlds (B): EVERY top-level label t of the rule list, in both tiers (VerifC51_lookup samples them in the quick
+// tier): the whole top-level search range of PublicSuffix including its first and last node. Domains t (concrete) and
+// x.t with one symbolic label x of 2 bytes (thorough: 1..3 bytes), compared with the reference as everywhere else.
+func VerifC51_tlds() {
+	ti := c51pick("tld", len(c51tlds))
+	tld := c51tlds[ti]
+	var labels []string
+	if vfBool("sub") {
+		n := 2
+		if vfTier() > 0 {
+			n = vfLen("len", 1, 3)
+		}
+		labels = []string{c51label("x", n, true), tld}
+		vfReach("below-tld")
+	} else {
+		labels = []string{tld}
+		vfReach("tld-alone")
+	}
 	c51check(labels)
 	vfReach("end")
 }
